@@ -70,7 +70,7 @@ def gen_wild(rng):
         elif m == 5:
             lines.insert(rng.randint(1, len(lines)), rng.choice(["VERS. 1.2 : again", "vers. 1.2 : lower", "Vers . 3.0 : mixed", "WRAP. YES : again",
                                                                  "NULL. 5 : again", "null. 7 : lower", "VERS:1. 1.2 : suffix", " . 5 : blank mnemonic",
-                                                                 "UNKNOWN. 1 : u", "STRT.M 5 : again", "strt.m 6 : lower", "API. 0012 : x", "UWI. 1e5 : y"]))
+                                                                 "UNKNOWN. 1 : u", "STRT.M 5 : again", "strt.m 6 : lower", "Strt.M 7 : mixed case", "Null. 3 : mixed case", "nUlL. 4 : odd case", "API. 0012 : x", "UWI. 1e5 : y"]))
             tags.append("dup-steer")
         elif m == 6:
             lines.insert(rng.randint(0, len(lines)), rng.choice(JUNK))
@@ -113,6 +113,9 @@ FIXED_INPUTS = [
     ("~V\nVERS. 2.0 : x\nWRAP. NO : y\n~C\nA.M : curve\n~A\n~P\nX. 5 : d\n", [["A", []]], {"Curves": ["A"], "Parameter": ["X"]}),
     ("~V\nVERS. 2.0 : x\nWRAP. NO : y\n~A\n~C\nA.M : curve\nB.M : curve\n~O\n1 2\n3 4\n", [["A", []], ["B", []]],
      {"Curves": ["A", "B"], "Other": "1 2\n3 4"}),
+    # an indented ~Other title was stored as text and the last line of the section dropped (fixed in /repo ab31372)
+    ("~V\nVERS. 2.0 : v\nWRAP. NO : w\n ~O\nfirst\nlast\n~W\nNULL. -999.25 : n\n", [], {"Other": "first\nlast", "Well": ["NULL"]}),
+    ("~V\nVERS. 2.0 : v\n\t~other stuff\nonly\n", [], {"Other": "only", "Version": ["VERS"]}),
 ]
 
 
